@@ -9,7 +9,7 @@
    records of the bulk read; an empty match is an empty result plus a warning and
    never an exception; both formats give the same samples, variants, allele
    indices and phase of heterozygous calls. *)
-From HV Require Import Prelude C07_Model C07_Check C08_Model.
+From HV Require Import Prelude BpText C07_Model C07_Check C08_Model C08_Region.
 
 Definition vrec_eqb (x y : vrec) : bool :=
   variant_eqb (fst x) (fst y) && list_eqb call_eqb (snd x) (snd y).
@@ -24,14 +24,20 @@ Record fobs := mkfo {
 }.
 
 Record rcase := mkrc {
-  rc_c : geno;              (* the content that was materialised *)
-  rc_q : query;
+  rc_c : geno;              (* the content that was materialised; [v_chrom] = C08_Region.enc of the contig name *)
+  rc_q : query;             (* the query as meant: its region is the PARSED (contig, start?, end?) *)
   rc_chunk : option Z;      (* chunk_size of the GenotypesPLINK reader *)
   rc_strict_samples : bool; (* harness switch: also demand "empty result + warning, no exception" when the
                                sample restriction selects no sample (cyvcf2/pgenlib raise; default false) *)
   rc_vcf_noregion : bool;   (* the VCF/BCF file was written without an index (its records need not be sorted then):
                                htslib cannot answer a region query, so the VCF reader is given the query without
                                its region; the PGEN reader gets the whole query *)
+  rc_regstr : option str;   (* the region as the TEXT both readers were handed (code points): the canonical
+                               printing of the region of [rc_q]; None = no region *)
+  rc_fixed_region : bool;   (* harness switch STRICT_REGION_CONTIG_NAMES: the PGEN reader parses the text like
+                               htslib (fixes/C08_region_contig_names.patch); false = re.split(":|-") *)
+  rc_vcf_unindexed : bool;  (* the VCF/BCF file has no index and the region was handed to the reader all the same
+                               (rc_vcf_noregion = false): htslib refuses (AssertionError) *)
   rc_vcf : fobs;
   rc_pgen : fobs
 }.
@@ -42,16 +48,32 @@ Definition iter_eqb := pair_eqb (list_eqb Z.eqb) (list_eqb vrec_eqb).
 
 Definition q_noregion (q : query) : query := mkq None (q_samples q) (q_ids q) (q_max q).
 
-(* the query the VCF reader is given *)
+(* the query the VCF reader is given, as meant *)
 Definition vcf_q (k : rcase) : query := if rc_vcf_noregion k then q_noregion (rc_q k) else rc_q k.
 
+
+(* The model is handed what the readers are handed: the region as text.  htslib's reading of it
+   ([hts_region]) and GenotypesPLINK's ([pgen_region], legacy or repaired) replace the region of [rc_q]. *)
 Definition model_read (k : rcase) :=
   let c := rc_c k in let q := rc_q k in
   let fx := rc_strict_samples k in   (* true: the readers with fixes/C08_empty_sample_selection.patch *)
-  ((vcf_read_x fx c q_all, vcf_read_x fx c (vcf_q k), vcf_iter_x fx c (vcf_q k)),
-   (pgen_read_x pload_std fx (rc_chunk k) c q_all,
-    pgen_read_x pload_std fx (rc_chunk k) c q,
-    pgen_iter_x pload_std fx c q)).
+  let vq := vcf_q k in
+  let '(vr, vi) :=
+    match rc_regstr k, rc_vcf_noregion k with
+    | Some s, false =>
+        if rc_vcf_unindexed k then (Err E_Assert, Err E_Assert)
+        else (vcf_read_s fx c vq s, vcf_iter_s fx c vq s)
+    | _, _ => (vcf_read_x fx c vq, vcf_iter_x fx c vq)
+    end in
+  let '(pr, pi) :=
+    match rc_regstr k with
+    | Some s => (pgen_read_s pload_std (rc_fixed_region k) fx (rc_chunk k) c q s,
+                 pgen_iter_s pload_std (rc_fixed_region k) fx c q s)
+    | None => (pgen_read_x pload_std fx (rc_chunk k) c q, pgen_iter_x pload_std fx c q)
+    end in
+  (* what is loaded keeps 10 characters of a contig name ([load_names]) *)
+  ((rmap load_names (vcf_read_x fx c q_all), rmap load_names vr, rmap load_names_iter vi),
+   (rmap load_names (pgen_read_x pload_std fx (rc_chunk k) c q_all), rmap load_names pr, rmap load_names_iter pi)).
 
 Definition agree_read (k : rcase) : bool :=
   let '((vf, vr, vi), (pf, pr, pi)) := model_read k in
@@ -125,21 +147,68 @@ Definition cross_comparable (c : geno) (q : query) : bool :=
   | Some _ => forallb (fun v => v_reflen v =? 1) (g_variants c)
   end.
 
-Definition holds_cross (k : rcase) : bool :=
+Definition holds_cross_full (k : rcase) : bool :=
   match fo_full (rc_vcf k), fo_full (rc_pgen k) with
   | Ok a, Ok b => geno_samegt a b
   | _, _ => true
-  end
-  && (negb (cross_comparable (rc_c k) (rc_q k))
-      || (rc_vcf_noregion k && match q_region (rc_q k) with Some _ => true | None => false end)
-      || match fo_read (rc_vcf k), fo_read (rc_pgen k) with
-         | Ok a, Ok b => geno_samegt a b
-         | _, _ => true
-         end).
+  end.
+
+Definition holds_cross_restricted (k : rcase) : bool :=
+  negb (cross_comparable (rc_c k) (rc_q k))
+  || (rc_vcf_noregion k && match q_region (rc_q k) with Some _ => true | None => false end)
+  || match fo_read (rc_vcf k), fo_read (rc_pgen k) with
+     | Ok a, Ok b => geno_samegt a b
+     | _, _ => true
+     end.
+
+Definition holds_cross (k : rcase) : bool := holds_cross_full k && holds_cross_restricted k.
+
+Definition region_eqb (x y : region) : bool :=
+  let '(c, a, b) := x in let '(c', a', b') := y in
+  (c =? c') && opt_eqb Z.eqb a a' && opt_eqb Z.eqb b b'.
+
+(* A loaded object shows 10 characters of a contig name: "read everything, then subset" is computed from the
+   observed full read with the contig of the region cut alike ... *)
+Definition load_region (r : region) : region := let '(c, a, b) := r in (load_chrom c, a, b).
+Definition load_q (q : query) : query :=
+  mkq (option_map load_region (q_region q)) (q_samples q) (q_ids q) (q_max q).
+
+(* ... which is the same selection as long as the contigs of the file and of the region differ within
+   their first 10 characters (ASSUMPTIONS) *)
+Definition names_dom (k : rcase) : bool :=
+  nodupb (map load_chrom
+            (nodup Z.eq_dec (chroms_of (rc_c k)
+                             ++ match q_region (rc_q k) with Some (c, _, _) => [c] | None => [] end))).
+
+(* Known finding, behind the switch STRICT_REGION_CONTIG_NAMES (rc_fixed_region): the PGEN reader of the tree
+   as it is splits the region text at EVERY ':' and '-'.  While the switch is off, a query whose text that
+   parser does not read as the region that was meant is not held against the PGEN reader. *)
+Definition pgen_region_misread (k : rcase) : bool :=
+  negb (rc_fixed_region k)
+  && match rc_regstr k, q_region (rc_q k) with
+     | Some s, Some r => negb (res_eqb region_eqb (pgen_region false (chroms_of (rc_c k)) s) (Ok r))
+     | _, _ => false
+     end.
+
+(* A region handed to the VCF reader of a file without an index: htslib cannot answer; a refusal (an
+   exception from both the bulk read and the iterator) is accepted, a result must be the right one. *)
+Definition holds_vcf (k : rcase) : bool :=
+  (rc_vcf_unindexed k
+   && match fo_read (rc_vcf k), fo_iter (rc_vcf k), fo_full (rc_vcf k) with
+      | Err _, Err _, Ok _ => true
+      | _, _, _ => false
+      end)
+  || holds_fmt (rc_strict_samples k) (load_q (vcf_q k)) (rc_vcf k).
+
+(* the property speaks of files whose variant IDs are unique (ASSUMPTIONS); a file with a repeated ID is
+   compared with the model only *)
+Definition read_dom (k : rcase) : bool := nodupb (map v_id (g_variants (rc_c k))) && names_dom k.
 
 Definition holds_read (k : rcase) : bool :=
-  holds_fmt (rc_strict_samples k) (vcf_q k) (rc_vcf k)
-  && holds_fmt (rc_strict_samples k) (rc_q k) (rc_pgen k) && holds_cross k.
+  negb (read_dom k)
+  || (holds_vcf k && holds_cross_full k
+      && (pgen_region_misread k
+          || (holds_fmt (rc_strict_samples k) (load_q (rc_q k)) (rc_pgen k) && holds_cross_restricted k))).
 
 Definition check_read (k : rcase) : bool * bool := (agree_read k, holds_read k).
 
@@ -305,3 +374,82 @@ Definition holds_seq (k : qcase) : bool :=
      end.
 
 Definition check_seq (k : qcase) : bool * bool := (agree_seq k, holds_seq k).
+
+(* ---- one command on the same content as VCF and as PGEN --------------------------------------- *)
+(* One case of the [cmdfmt] relation = one content written as .vcf.gz+tbi and as .pgen/.pvar/.psam, one
+   haptools command (transform, ld, ld --from-gts, simphenotype --seed, clump) run on each with the same
+   options.  Recorded: the arguments of the read() the command made on the genotypes file and the object
+   that read left; the exit code, the exception kind and the records of the output file.
+   [agree]: the two reads got the same query, and each loaded what the model of its reader loads for it.
+   [holds]: both runs end alike - the same exit code and exception kind, the same output records (tokens
+   interned by the harness; the separator of a homozygous GT is immaterial). *)
+
+Record cout := mkco {
+  co_exit : Z;                        (* exit code; 97 = the run was not observed *)
+  co_exc : Z;                         (* error kind of the exception that ended the run, 0 = none *)
+  co_out : option (list (list Z))     (* the records of the output file, None = no output *)
+}.
+
+Definition cout_eqb (x y : cout) : bool :=
+  (co_exit x =? co_exit y) && (co_exc x =? co_exc y)
+  && opt_eqb (list_eqb (list_eqb Z.eqb)) (co_out x) (co_out y).
+
+Record ccase := mkcc {
+  cc_c : geno;                 (* the content; contigs as [enc] numbers *)
+  cc_q : query;                (* the query the command handed to read(): region as meant, samples, IDs, max *)
+  cc_chunk : option Z;
+  cc_regstr : option str;
+  cc_fixed_region : bool;      (* switch STRICT_REGION_CONTIG_NAMES *)
+  cc_strict_samples : bool;    (* switch STRICT_EMPTY_SAMPLE_SELECTION *)
+  cc_strict_empty : bool;      (* switch STRICT_CMD_EMPTY_LOAD *)
+  cc_same_query : bool;        (* both runs handed the same arguments to read(), the region being the text of cc_q's *)
+  cc_load_v : option (res geno);   (* what read() left (None: the run did not get as far as reading the genotypes) *)
+  cc_load_p : option (res geno);
+  cc_out_v : cout;
+  cc_out_p : cout
+}.
+
+Definition model_cmdfmt (k : ccase) : res geno * res geno :=
+  let c := cc_c k in let q := cc_q k in let fx := cc_strict_samples k in
+  match cc_regstr k with
+  | Some s => (rmap load_names (vcf_read_s fx c q s),
+               rmap load_names (pgen_read_s pload_std (cc_fixed_region k) fx (cc_chunk k) c q s))
+  | None => (rmap load_names (vcf_read_x fx c q),
+             rmap load_names (pgen_read_x pload_std fx (cc_chunk k) c q))
+  end.
+
+Definition agree_cmdfmt (k : ccase) : bool :=
+  let '(mv, mp) := model_cmdfmt k in
+  cc_same_query k
+  && match cc_load_v k with Some o => res_eqb geno_eqb mv o | None => true end
+  && match cc_load_p k with Some o => res_eqb geno_eqb mp o | None => true end.
+
+(* the known finding of [read] (a region text the legacy PGEN parser misreads) shows at command level too *)
+Definition cmd_region_misread (k : ccase) : bool :=
+  negb (cc_fixed_region k)
+  && match cc_regstr k, q_region (cc_q k) with
+     | Some s, Some r => negb (res_eqb region_eqb (pgen_region false (chroms_of (cc_c k)) s) (Ok r))
+     | _, _ => false
+     end.
+
+(* Known finding, behind the switch STRICT_CMD_EMPTY_LOAD: when the command's read matches nothing the VCF
+   reader leaves an array of shape (0, 0, 0) and the PGEN reader one of shape (n, 0, 3); simphenotype
+   computes with the number of rows of the array and prints no sample for the VCF, n noise-only phenotypes
+   for the PGEN.  While the switch is off a run whose two loads differ in shape is not held against the
+   command. *)
+Definition shapes_differ (k : ccase) : bool :=
+  match cc_load_v k, cc_load_p k with
+  | Some (Ok a), Some (Ok b) =>
+      (* the VCF read left an array without cells beside the same samples and variants as the PGEN read *)
+      no_cells a && list_eqb Z.eqb (g_samples a) (g_samples b)
+      && list_eqb variant_eqb (g_variants a) (g_variants b)
+      && negb (list_eqb Z.eqb (g_shape a) (g_shape b))
+  | _, _ => false
+  end.
+
+Definition cmd_empty_excused (k : ccase) : bool := negb (cc_strict_empty k) && shapes_differ k.
+
+Definition holds_cmdfmt (k : ccase) : bool :=
+  cmd_region_misread k || cmd_empty_excused k || cout_eqb (cc_out_v k) (cc_out_p k).
+
+Definition check_cmdfmt (k : ccase) : bool * bool := (agree_cmdfmt k, holds_cmdfmt k).
